@@ -149,6 +149,54 @@ func (c *BlocksCase) Exec(t *eng.T) {
 
 // ---- invalid shapes ----
 
+// SuperCtxCase: what a definition renders does not depend on whether it is the most-derived one or reached through
+// block.Super of a more-derived one: a leaf that only wraps Super renders exactly the middle template's output.
+type SuperCtxCase struct {
+	Mid   string `json:"mid"`   // body of the middle template's definition of block c (uses block.Super)
+	Depth int    `json:"depth"` // number of wrapping levels above the middle template (1..3)
+	// Want: what the middle template renders (the parent's definition is rendered where Super is written: in the
+	// escaping mode and with the variables in force there); "" = only the comparison between the depths
+	Want string `json:"want,omitempty"`
+}
+
+func (c *SuperCtxCase) ID() string {
+	return fmt.Sprintf("super-context depth=%d mid=%q", c.Depth, c.Mid)
+}
+
+func (c *SuperCtxCase) Exec(t *eng.T) {
+	t.Nontrivial()
+	files := map[string]string{
+		"/base": `{% block c %}<p>{{ v }}{{ w }}</p>{% endblock %}`,
+		"/mid":  `{% extends "base" %}{% block c %}` + c.Mid + `{% endblock %}`,
+	}
+	prev := "mid"
+	for i := 1; i <= c.Depth; i++ {
+		name := fmt.Sprintf("leaf%d", i)
+		files["/"+name] = `{% extends "` + prev + `" %}{% block c %}[{{ block.Super }}]{% endblock %}`
+		prev = name
+	}
+	cx := func() pongo2.Context {
+		return pongo2.Context{"v": "<b>&", "w": "'w'", "l": []string{"<1>", "<2>"}, "yes": true}
+	}
+	set, _ := px.NewSet(files)
+	midT, o1 := px.CompileFile(set, "/mid")
+	leafT, o2 := px.CompileFile(set, "/"+prev)
+	if midT == nil || leafT == nil {
+		t.Fail("super-context:compile", "%s does not compile: %s %s", c.ID(), o1, o2)
+		return
+	}
+	m, l := px.Exec(midT, cx()), px.Exec(leafT, cx())
+	t.Outcome(m.String())
+	if c.Want != "" && (m.Failed() || m.S != c.Want) {
+		t.Fail("super-context:output", "%s: the middle template renders %s, want %q", c.ID(), m, c.Want)
+		return
+	}
+	want := strings.Repeat("[", c.Depth) + m.S + strings.Repeat("]", c.Depth)
+	if m.Failed() || l.Failed() || l.S != want {
+		t.Fail("super-context:depends-on-depth", "%s: the middle template renders %s; wrapped %d time(s) by [{{ block.Super }}] it renders %s, want %q", c.ID(), m, c.Depth, l, want)
+	}
+}
+
 type BadCase struct {
 	Files map[string]string `json:"files"`
 	Label string            `json:"label"`
@@ -584,6 +632,24 @@ func run(r *eng.Runner) {
 		}
 	}
 
+	r.Group("super-context", "c10.superctx", "a middle definition that uses block.Super inside / after constructs that change what the parent's definition sees (autoescape on/off, set before Super, with, for, if, macro, nested blocks), wrapped 1..3 times by definitions that only print [Super]: every wrapped rendering equals the middle template's own rendering in brackets")
+	for _, mid := range []string{
+		`{{ block.Super }}`, `{% autoescape off %}{{ block.Super }}{% endautoescape %}|{{ v }}`, `{% autoescape off %}{% autoescape on %}{{ block.Super }}{% endautoescape %}{{ block.Super }}{% endautoescape %}`,
+		`{% set v = "<S>" %}{{ block.Super }}`, `{{ block.Super }}{% set v = "<S>" %}{{ block.Super }}|{{ v }}`, `{% with v="<W>" %}{{ block.Super }}{% endwith %}`, `{% for v in l %}{{ block.Super }}{% endfor %}`,
+		`{% if yes %}{% set w = 1 %}{% endif %}{{ block.Super }}{{ w }}`, `{% macro mm() %}{{ block.Super }}{% endmacro %}{{ mm() }}`, `{% set s = block.Super %}{{ s }}{{ s }}`, `{% filter upper %}{{ block.Super }}{% endfilter %}`,
+		`{% autoescape off %}{% set v = "<A>" %}{% endautoescape %}{{ block.Super }}`, `{% spaceless %}{{ block.Super }} {{ block.Super }}{% endspaceless %}`,
+	} {
+		want := map[string]string{
+			`{{ block.Super }}`: `<p>&lt;b&gt;&amp;&#39;w&#39;</p>`,
+			`{% autoescape off %}{{ block.Super }}{% endautoescape %}|{{ v }}`:                                                `<p><b>&'w'</p>|&lt;b&gt;&amp;`,
+			`{% autoescape off %}{% autoescape on %}{{ block.Super }}{% endautoescape %}{{ block.Super }}{% endautoescape %}`: `<p>&lt;b&gt;&amp;&#39;w&#39;</p><p><b>&'w'</p>`,
+			`{% set v = "<S>" %}{{ block.Super }}`:                                                                            `<p>&lt;S&gt;&#39;w&#39;</p>`,
+			`{% autoescape off %}{% set v = "<A>" %}{% endautoescape %}{{ block.Super }}`:                                     `<p>&lt;A&gt;&#39;w&#39;</p>`,
+		}[mid]
+		for depth := 1; depth <= 3; depth++ {
+			r.Do(&SuperCtxCase{Mid: mid, Depth: depth, Want: want})
+		}
+	}
 	r.Group("invalid", "c10.bad", "invalid shapes: second extends, extends inside a block / if / for, duplicate block names (same level, nested, in a child), extends of a missing file, extends with a non-string argument")
 	base := "B{% block a %}a0{% endblock %}"
 	bads := map[string]string{
@@ -627,6 +693,7 @@ func run(r *eng.Runner) {
 func init() {
 	eng.RegisterCase("c10.case", func() eng.Case { return &Case{} })
 	eng.RegisterCase("c10.bad", func() eng.Case { return &BadCase{} })
+	eng.RegisterCase("c10.superctx", func() eng.Case { return &SuperCtxCase{} })
 	eng.RegisterCase("c10.blocks", func() eng.Case { return &BlocksCase{} })
 	eng.Register(&eng.Check{
 		ID:    "C10",
